@@ -540,8 +540,32 @@ func TestVerifC14(t *testing.T) {
 	frontier := []entry{{}}
 	transitions := 0
 	completedDepth := 0
+	// Non-initial start states ("rich" histories that BFS from the empty server reaches only beyond its depth): each is
+	// explored for the last two levels. A connector and a pipeline that own two processors each, and a pipeline with a
+	// source, a destination and a processor.
+	rich := [][]op{
+		{{Kind: "createPipeline", Arg: "a"}, {Kind: "createConnector", B: 0, Arg: "source"}, {Kind: "createProcessor", B: 0, Arg: "conn"}, {Kind: "createProcessor", B: 0, Arg: "conn"}},
+		{{Kind: "createPipeline", Arg: "a"}, {Kind: "createProcessor", B: 0, Arg: "pipe"}, {Kind: "createProcessor", B: 0, Arg: "pipe"}},
+		{{Kind: "createPipeline", Arg: "a"}, {Kind: "createConnector", B: 0, Arg: "source"}, {Kind: "createConnector", B: 0, Arg: "dest"}, {Kind: "createProcessor", B: 0, Arg: "pipe"}},
+	}
+	richAdded := 0
 	for depth := 1; depth <= maxDepth && len(frontier) > 0; depth++ {
 		var next []entry
+		if depth == maxDepth-1 || (maxDepth == 1 && depth == 1) {
+			for _, h := range rich {
+				rs, err := build(h)
+				if err != nil {
+					continue
+				}
+				key := rs.dumpMemory(false) + "|after-a-failed-call="
+				if !seen[key] {
+					seen[key] = true
+					rep.State(key)
+					frontier = append(frontier, entry{hist: h})
+					richAdded++
+				}
+			}
+		}
 		for hi, fe := range frontier {
 			hist := fe.hist
 			if time.Now().After(deadline) {
@@ -648,6 +672,7 @@ func TestVerifC14(t *testing.T) {
 	}
 	rep.Transitions(int64(transitions))
 	rep.Bound("bfs_depth_completed", completedDepth)
+	rep.Bound("rich_start_states_explored_for_last_two_levels", richAdded)
 	rep.Bound("max_entities", "2 pipelines, 2 connectors, 2 processors")
 	for i := 0; i < transitions && i < 1; i++ {
 		rep.Trace()
